@@ -16,11 +16,14 @@ LATTICE = (
 )
 SPANS = tuple(itertools.combinations_with_replacement(LATTICE, 2))    # 21
 ATTRS = ({}, {"sat": "A"})
+# every kind of JSON value a handler may supply (one-entry caches only)
+MORE_ATTRS = ({"orbit": 7}, {"x": 1.5, "flag": None, "tags": ["a", "b"]},
+              {"sat": "\u00fc\u2603"})
 PATHS = ("f%d.dat", 'odd "dir" ü\\x/f%d.dat')
 
 
 def entry(path, t0, t1, attrs):
-    """Hashable form of one cached FileInfo."""
+    """Comparable form of one cached FileInfo."""
     return (path, t0, t1, tuple(sorted(attrs.items())))
 
 
@@ -31,7 +34,7 @@ def entry(path, t0, t1, attrs):
 def singles(base):
     for style in PATHS:
         for span in SPANS:
-            for attrs in ATTRS:
+            for attrs in ATTRS + MORE_ATTRS:
                 yield (entry(base + style % 0, span[0], span[1], attrs),)
 
 
@@ -126,6 +129,14 @@ def broken_entries(good):
         "null-time/first": with_times([None, t]),
         "null-time/second": with_times([t, None]),
         "times-nested": with_times([[t], [t]]),
+        "path-type/number": dict(good, path=5),
+        "path-type/null": dict(good, path=None),
+        "path-type/bool": dict(good, path=True),
+        "path-type/list": dict(good, path=[good["path"]]),
+        "path-type/object": dict(good, path={"name": good["path"]}),
+        "attr-type/string": dict(good, attr="x"),
+        "attr-type/list": dict(good, attr=[1]),
+        "attr-type/number": dict(good, attr=3),
     }
     for label, text in (
             ("blank-separator", t.replace("T", " ")),
@@ -140,8 +151,9 @@ def broken_entries(good):
 
 
 def corrupt_documents(entries):
-    """-> [(label, bytes, entries a load must restore or None = malformed)]
-    built around the well-formed entries `entries` (three of them)."""
+    """-> [(label, bytes, entries a load must restore | None = malformed |
+    {"any_of": ...} = lenient_documents)] built around the well-formed
+    entries `entries` (three of them)."""
     good = [as_json(e) for e in entries]
     whole = document(entries)
     docs = [
@@ -181,7 +193,31 @@ def corrupt_documents(entries):
             rows.insert(pos, value)
             docs.append(("entry/%s/at-%d" % (label, pos),
                          json.dumps(rows).encode(), None))
-    return docs
+    return docs + lenient_documents(entries)
+
+
+def lenient_documents(entries):
+    """Documents that save_cache never writes but that say unambiguously what
+    they mean; the statement does not class them as malformed.
+    -> [(label, bytes, {"any_of": contents a load may restore})]; rejecting
+    the whole file with a warning is accepted as well."""
+    good = [as_json(e) for e in entries]
+    path, t0, _, attrs = entries[2]
+    out = []
+    for label, text, t1 in (
+            ("short-fraction", "2020-02-29T00:00:00.5",
+             dt.datetime(2020, 2, 29, 0, 0, 0, 500000)),
+            ("unpadded-month-and-day", "2020-3-1T00:00:00.000000",
+             dt.datetime(2020, 3, 1)),
+            ("end-before-start", stamp(LATTICE[3]), LATTICE[3])):
+        rows = good[:2] + [dict(good[2], times=[stamp(t0), text])]
+        out.append(("lenient/" + label, json.dumps(rows).encode(), dict(
+            any_of=[entries[:2] + ((path, t0, t1, attrs),)])))
+    again = entry(entries[1][0], LATTICE[2], LATTICE[2], {"sat": "twice"})
+    out.append(("lenient/same-path-twice",
+                json.dumps(good + [as_json(again)]).encode(),
+                dict(any_of=[entries, (entries[0], again, entries[2])])))
+    return out
 
 
 # -------------------------------------------------------------------------
@@ -221,6 +257,18 @@ CONFIGS = {
     "plain+sat": ("{sat}_plain.dat", ["%s_plain.dat" % s for s in "ABCD"]),
     "plain": ("p*.dat", ["p%s.dat" % s for s in "abcd"]),
     "single": ("single.dat", ["single.dat"]),
+    "handler": ("h*.dat", ["h%s.dat" % s for s in "abcd"]),
+    "both": ("{sat}_b.dat", ["%s_b.dat" % s for s in "ABCD"]),
+}
+# configurations whose file handler knows what no file name tells:
+# name -> (info_via, {file name: (start, end, attributes) it reports})
+HANDLED = {
+    "handler": ("handler", {
+        name: span + ({"orbit": i, "node": "asc"},)
+        for i, (name, span) in enumerate(zip(CONFIGS["handler"][1], _OLD))}),
+    "both": ("both", {
+        name: span + ({"orbit": 7 * i},)
+        for i, (name, span) in enumerate(zip(CONFIGS["both"][1], _MODERN))}),
 }
 POPULATIONS = (0, 1, 3)
 # find() is asked for everything and for a period whose bounds are lattice
